@@ -182,8 +182,10 @@ pub fn rec_observe(args: &Args) {
         (vec![b"a".to_vec(), b"".to_vec()], String::new()),
         (vec![b"A".to_vec()], String::new()),
     ];
+    // (the key is worked out here, not asked of the code under test: Views!GetPath - the segments that are
+    // valid UTF-8, joined by '/')
     for p in paths.iter_mut() {
-        p.1 = req("e", &[], &p.0, 0).get_path();
+        p.1 = p.0.iter().filter_map(|seg| std::str::from_utf8(seg).ok()).collect::<Vec<_>>().join("/");
     }
     let mut keys: Vec<String> = paths.iter().map(|p| p.1.clone()).collect();
     // near misses of every key are observed too (and used by notification rounds): the registry is keyed
